@@ -327,12 +327,65 @@ def ordering(ctx, report, m, f):
                     found = None
                 else:
                     break
+    sw_override = None
+    if found is None:
+        # `prev.map_or(true, |p| p < key)` / `prev.is_none_or(|p| p < key)`: the comparison lives in a closure applied to the
+        # Some payload of the carried option; no previous key counts as "in order"
+        import closures
+        from kernel import E, closure_of
+        for b, t in f.calls():
+            if b.idx not in m.loop_body or t.callee is None or t.callee.name not in ("map_or", "is_none_or") or "Option" not in (t.callee.fn or ""):
+                continue
+            args = [an.operand_expr(a, b.idx, len(b.stmts)) for a in t.args]
+            if t.callee.name == "map_or":
+                if len(args) != 3 or not (strip(args[1]).k == "const" and strip(args[1]).a[0] == 1):
+                    continue
+                clx = args[2]
+            else:
+                if len(args) != 2:
+                    continue
+                clx = args[1]
+            cl = closure_of(clx)
+            body = closures.closure_return(ctx, cl[0], cl[1], [E("closure-arg")]) if cl else None
+            if not body or len(body) != 1:
+                continue
+            cb = strip(body[0])
+            if not (cb.k == "call" and cb.a[0].name in CMP_TRUE and len(cb.a[1]) == 2):
+                continue
+            s0, s1 = cb.a[1]
+            isarg = lambda x: any(y.k == "closure-arg" for y in x.walk())  # noqa: E731
+            if isarg(s0) and m.is_key(s1) and not isarg(s1):
+                fl = False
+            elif isarg(s1) and m.is_key(s0) and not isarg(s0):
+                fl = True
+            else:
+                continue
+
+            class _T:
+                pass
+            tt = _T()
+            tt.callee = cb.a[0]
+            tt.target = t.target
+            tt.sp = t.sp
+            found = (b.idx, tt, E("vfield", args[0], "Some", 0), fl)
+            # the boolean may be tested further on (handed to a spliced-in `ensure(cond, msg)`): find the switch on this call's value
+            for n_ in sorted(m.loop_body):
+                inf = an.switch_info(n_)
+                if inf is None:
+                    continue
+                c_ = inf[0]
+                while c_.k == "unop" and c_.a[0] == "Not":
+                    c_ = strip(c_.a[1])
+                c_ = strip(c_)
+                if c_.k == "call" and c_.site == b.idx and c_.a[0].name == t.callee.name:
+                    sw_override = n_
+            break
     if found is None:
         report.violate("KEYS", "strictly-increasing", "no comparison between the previous key and the current key is made in the pair loop: unsorted and duplicate keys are accepted", fn=f.path, sp=m.key_ev["sp"], config=cfg)
         return
     bb, t, other, flipped = found
     # edges of the switch on the comparison result
-    sw = t.target
+    sw = sw_override if sw_override is not None else t.target
     info = an.switch_info(sw)
     cont = None
     if info is not None:
@@ -389,6 +442,18 @@ def ordering(ctx, report, m, f):
                     if g.dominates(b.idx, m.insert_ev[0]) and (tested.k == "phi" or True):
                         if same_value(strip(an.local_expr(s.place.local, bb, 0)), strip(prev_expr)) or repr(strip(an.local_expr(s.place.local, bb, 0))) == repr(strip(prev_expr)):
                             good = True
+    if not good:
+        # `match prev.replace(key) { Some(p) if p >= key => .., _ => {} }`: Option::replace stores Some(key) and hands back the
+        # previous content, which is what the comparison then looks at
+        pe = strip(prev_expr)
+        if pe.k == "call" and pe.a[0].name == "replace" and "Option" in (pe.a[0].fn or "") and len(pe.a[1]) == 2 and m.is_key(pe.a[1][1]) and pe.site in m.loop_body and g.dominates(pe.site, m.insert_ev[0]):
+            tgt = None
+            for b2, t2 in f.calls():
+                if b2.idx == pe.site and t2.callee and t2.callee.name == "replace":
+                    tgt = an.operand_target(t2.args[0])
+            # the option it replaces is a local that lives across iterations (defined before the loop)
+            if tgt is not None and tgt[1] == [] and tgt[2] is False and any(d[0] not in m.loop_body for d in an.defs().get(tgt[0], [])):
+                good = True
     report.check("KEYS", "prev-updated", good, "the previous key is set to the current key in every iteration",
                  "the key remembered for the ordering check is not updated to the current key on every iteration", fn=f.path, sp=t.sp, config=cfg)
 
@@ -482,12 +547,63 @@ def rejections_rule(ctx, report, m, f):
                         qs = strip(r[0])
                         if qs.k == "call" and qs.a[0].name == "len" and qs.a[1] and is_payload(m, qs.a[1][0]) and r[1] == [(0, 0)]:
                             why_ok = "payload exhausted"
+            if why_ok is None and id_probe_excludes(m, an, bb):
+                why_ok = "id is not v4 (unreachable for the value v4)"
             if why_ok is None:
                 bad.append(getattr(node, "sp", None) or "bb%d" % bb)
     report.check("REJECT", "decode/only-justified", not bad,
                  "each of decode's %d explicit rejections is taken only when the item is too large, the payload is exhausted, the keys are out of order, the id is not v4, the signature does not verify, or a library call failed" % n_explicit,
                  "decode has a rejection that none of the specification's conditions justifies (or one of them with the polarity reversed): valid records can be refused (at %s)" % sorted(set(map(str, bad))),
                  fn=f.path, sp=f.span, config=cfg)
+
+
+def id_probe_excludes(m, an, bb):
+    """a rejection inside the `id` arm that cannot be reached when the value read is exactly b"v4" (a slice pattern
+    `id @ b"v4"` compares the length and then byte by byte; the `_` arm is the join of all mismatches): walk the arm
+    with every test on the value folded for b"v4" and see whether the rejection is still reachable"""
+    import dispatch
+    try:
+        leaf = m.leaf_for(b"id")
+        region = m.leaf_region(leaf)
+        cl = m.describe_leaf(leaf)
+    except Exception:
+        return False
+    if not cl or bb not in an.cfg.reach(leaf) or bb in m.loop_body and bb not in region and any(bb in m.leaf_region(m.leaf_for(k)) for k in (b"tcp", b"ip", b"zz")):
+        return False
+    idcall = an.call_expr(cl[0][2]["term"], cl[0][2]["bb"])
+
+    def is_val(e):
+        e = strip(e)
+        for _ in range(4):
+            if e.k in ("ref", "deref"):
+                e = strip(e.a[0])
+        p = ok_payload(e)
+        return p is not None and same_value(p, idcall)
+    fn = an.fn
+    seen = set()
+    stack = [leaf]
+    while stack:
+        n = stack.pop()
+        if n in seen or n == m.loop_head:
+            continue
+        seen.add(n)
+        t = fn.blocks[n].term
+        succ = list(an.cfg.succ.get(n, []))
+        if t.kind == "switch":
+            cond = an.operand_expr(t.discr, n, len(fn.blocks[n].stmts))
+            try:
+                v = dispatch.eval_key_cond(cond, is_val, b"v4")
+            except dispatch.Unfoldable:
+                v = None
+            if v is not None:
+                v = int(v)
+                tgt = None
+                for val, tb in t.targets:
+                    if val == v:
+                        tgt = tb
+                succ = [tgt if tgt is not None else t.otherwise]
+        stack.extend(x for x in succ if x is not None)
+    return bb not in seen
 
 
 def id_check(ctx, report, m, f):
